@@ -122,7 +122,30 @@ def transform_x(label, x, n, R):
     return X, lambda Y: Y
 
 
+def rename_system(c, style):
+    """the same system with other type NAMES (same order): names that are prefixes / concatenations of each other, or names that
+    differ by case or a trailing blank only"""
+    T = c['types']
+    pool = {'concat': ['A', 'AB', 'B', 'ABB'], 'near': ['x', 'X', 'x ', ' x']}[style]
+    m = {t: pool[i] for i, t in enumerate(T)}
+    d = copy.deepcopy(c)
+    d['types'] = [m[t] for t in T]
+    for name in ('rho', 'diam'):
+        d[name] = {m[t]: v for t, v in c[name].items()}
+    if 'assign_order' in c:
+        d['assign_order'] = [m[t] for t in c['assign_order']]
+    for name in ('pot', 'clo', 'omega'):
+        new = {}
+        for a, b in systems.pairs(T):
+            k1, k2 = '%s-%s' % (a, b), '%s-%s' % (b, a)
+            new['%s-%s' % (m[a], m[b])] = copy.deepcopy(c[name][k1] if k1 in c[name] else c[name][k2])
+        d[name] = new
+    return d
+
+
 def reformulate(c, label):
+    if label['act'] == 'Rename':
+        return rename_system(c, label['style'])
     if label['act'] == 'Permute':
         return perm_system(c, label['perm'])
     if label['act'] == 'SplitMono':
@@ -190,7 +213,7 @@ def run(ctx):
             y2 = cost_of(P2, X2.reshape(-1))
             want = back(y1)
             n_cost += 1
-            ctx.count(('cost', key, label['act'], str(label.get('perm', label.get('ratio', label.get('scale', '')))), fam))
+            ctx.count(('cost', key, label['act'], str(label.get('perm', label.get('ratio', label.get('scale', label.get('style', ''))))), fam))
             if not (np.all(np.isfinite(y1)) and np.all(np.isfinite(want))):
                 ctx.skip('non-finite cost of the base system for a trial vector (not judged)')
                 continue
@@ -199,7 +222,8 @@ def run(ctx):
             if err > TOL_COST:
                 bad = (fam, err)
                 break
-        clause = {'Permute': 'PermEquivariant', 'SplitMono': 'SplitMonatomic', 'SplitDiblock': 'SplitDiblock', 'Scale': 'EnergyScaleInvariant'}[label['act']]
+        clause = {'Permute': 'PermEquivariant', 'SplitMono': 'SplitMonatomic', 'SplitDiblock': 'SplitDiblock', 'Scale': 'EnergyScaleInvariant',
+                  'Rename': 'RenameInvariant'}[label['act']]
         if bad and (clause, 'cost') not in fails:
             fails.add((clause, 'cost'))
             ctx.violation(clause + '.cost', {'family': 'replay.cost', 'action': label['act'], 'label': label, 'base': b, 'system': c, 'reformulated': c2,
@@ -247,9 +271,9 @@ def solved_level(ctx, c, c2, label, clause, fails):
     (g1, s1, w1), (g2, s2, w2) = out
     n, R = g1.shape[0], g1.shape[1]
     _, back = transform_x(label, np.zeros(n * R * R), n, R)
-    ctx.count(('solved', label['act'], str(label.get('perm', label.get('ratio', label.get('scale', ''))))))
+    ctx.count(('solved', label['act'], str(label.get('perm', label.get('ratio', label.get('scale', label.get('style', '')))))))
     cmp = [('pair_correlation', back(g1), g2)]
-    if label['act'] in ('Permute', 'Scale'):
+    if label['act'] in ('Permute', 'Scale', 'Rename'):
         cmp.append(('structure_factor', back(s1), s2))
     fac = float(label['scale']) / 2.0 if label['act'] == 'Scale' else 1.0
     m = np.isfinite(back(w1)) & np.isfinite(w2) & (back(g1) > 1e-2) & (g2 > 1e-2)      # pmf = -kT ln g amplifies by 1/g
